@@ -110,6 +110,7 @@ def row_problems(row, rlab, qlab, sp, dp, su, maxd):
     return bad, boundary, nseg, unp
 
 
+@core.guarded(lambda tup, rpos, qpos, peaks, rev, *a: dict(tuple=list(tup), reference=rpos, query=qpos, peaks=peaks, reverse=rev))
 def check_case(tup, rpos, qpos, peaks, rev, acc, aligner=None):
     sp, dp, su, maxd, ms, bs = tup
     aligner = aligner or make_aligner(maxd, sp, dp, su, ms, bs)
@@ -176,12 +177,18 @@ DEFAULTS = dict(sp=1000, dp=1.0, su=-250, d=1500, ms=1000, bs=1200)
 DEVIATIONS = dict(sp=700, dp=0.5, su=-100, d=600, ms=1500, bs=600)
 
 
+ZEROS = dict(dp=0, su=0, d=0)      # zero is a legal value of these options ("the values used are the ones given")
+
+
 def settings(maxdev):
     keys = list(DEVIATIONS)
     out = [()]
     for k in range(1, maxdev + 1):
         for combo in itertools.combinations(keys, k):
             out.append(tuple(x for key in combo for x in ('-' + key, str(DEVIATIONS[key]))))
+    for key, v in ZEROS.items():
+        out.append(('-' + key, str(v)))
+    out.append(('-dp', '0', '-su', '0'))
     return out
 
 
